@@ -123,6 +123,10 @@ func (p *Parser) Parse(formatOnly bool) (*bytes.Buffer, int) {
 		line := fileScanner.Text()
 		// remove indentation
 		line = strings.TrimLeft(line, " \t")
+		// The scanner removes one carriage return in front of the line feed. Remove any others
+		// too: they belong to the line ending, not to the line (otherwise `format` would
+		// take off one of them with every run).
+		line = strings.TrimRight(line, "\r")
 		text = "" // empty text each iteration
 		logger.Trace().Msgf("parsing line: %q", line)
 		parsedLine := p.parseLine(line)
